@@ -1570,6 +1570,24 @@ fn gen_c14(lvl: u8) -> Vec<Scenario> {
             out.push(chain(len, &ks, format!("c14-{n}-chain{len}-{ks:?}")));
         }
     }
+    // an ask that timed out while still queued, a retry to the same callee, and then the callee asks back:
+    // the late answer to the abandoned ask must not hide the edge of the retry
+    for flavour in 0..2 {
+        let mut ids = Ids(0);
+        let mut busy = MsgSpec::m1(ids.next()).steps(vec![Step::Sleep(20)]);
+        busy.entry_yield = false;
+        let q1 = MsgSpec::quick(ids.next());
+        let echo = MsgSpec::quick(ids.next());
+        let q2 = MsgSpec::m1(ids.next()).steps(vec![send(SendKind::Ask, REG_BASE, echo)]);
+        let first = if flavour == 0 { send(SendKind::AskTO(10), REG_BASE + 1, q1) } else { send(SendKind::AskTO(5), REG_BASE + 1, q1) };
+        let go = MsgSpec::m1(ids.next()).steps(vec![first, send(SendKind::Ask, REG_BASE + 1, q2)]);
+        let c0 = Program::new(vec![(0, 1)], vec![send(SendKind::Tell, 0, busy)]);
+        let c1 = Program::new(vec![(0, 0)], vec![Step::Sleep(1), send(SendKind::Tell, 0, go)]);
+        n += 1;
+        let mut s = scn(format!("c14-{n}-retry-after-timeout-{flavour}"), vec![ActorSpec::plain(3), ActorSpec::plain(3)], vec![c0, c1], &["quiet"]);
+        s.registry = true;
+        out.push(s);
+    }
     out
 }
 
